@@ -34,13 +34,17 @@ SOURCES = ["include/etl/_type_traits", "include/etl/_concepts", "include/etl/_li
            "include/etl/_math/sign.hpp"]
 CXXSTD = ["-std=c++2b", "-O0", "-w"]
 
-RULE = ("(c) every type of the Lean-enumerated zoo of depth 0 (27 base types x 4 cv) and a seeded sample (thorough: all) of "
+RULE = ("(c) every type of the Lean-enumerated zoo of depth 0 (31 base types x 4 cv; eight enumerations with underlying types of 1, 2, 4 and 8 bytes) and a seeded sample (thorough: all) of "
         "depths 1-2 plus a sample of depth 3 and random deeper terms: 55 structural traits/concepts per type; is_same/same_as "
         "over all ordered pairs of a near-miss list; (d) 60 intrinsic-backed traits/concepts over a 50-class zoo, its cv/ref/"
         "pointer/array variants and a zoo sample, 22 relational traits/concepts + common_type/common_reference/invoke_result "
         "over all ordered pairs of a relation list; (b) all 32 numeric_limits members x 19 arithmetic types x 4 cv; "
         "(a) ratio<n,d> over a small grid and near-overflow values, the four arithmetic aliases and six comparisons over "
-        "all ordered pairs of a small ratio list and seeded near-overflow pairs.  A case is non-trivial when the type is "
+        "all ordered pairs of a small ratio list, seeded near-overflow pairs and six targeted families (common denominator with a "
+        "cancelling numerator, Bezout-type cancellation n1/a - n2/b = 1/(ab) with products near 2^93, large integer parts of "
+        "opposite sign with a fractional carry, completely cancelling products, Fibonacci neighbours for the comparison loop, "
+        "lcm(d1,d2) not representable while the sum is); where model and spec say ill-formed a seeded sample of the "
+        "instantiations (and ratio<n,0>, ratio<INTMAX_MIN,d>) is compiled alone and must be rejected.  A case is non-trivial when the type is "
         "compound / the pair differs / the ratio is not already reduced or an intermediate exceeds 2^31; distinct = distinct "
         "case text.")
 ASSUMPTIONS = ["libstdc++ 12 <type_traits>, <concepts>, <limits>, <ratio> are the reference (R2 validates the Lean spec against them)",
@@ -53,35 +57,43 @@ TRUSTED = ["hand model Tetl/C15/Model.lean tied to the source by the compile-tim
 
 # ------------------------------------------------------------------ manifest text
 CLAIMED = True
-TECHNIQUE = ("Lean 4 proof (ratio, integer numeric_limits, structural traits over a C++ type grammar) + compile-time "
-             "etl/std/model/spec matrix generated from a Lean-enumerated type zoo; intrinsic-backed class traits: "
-             "differential matrix only")
-LEVEL_TEXT = ("Proved in Lean 4 for all inputs: each of 47 structural traits/concepts, as tetl computes it (partial "
-              "specialisations, SFINAE helpers, the not-const-qualifiable test of is_function, the portable branches of "
-              "is_scalar/is_object), equals the standard's definition for every well-formed type of a grammar with cv, "
-              "pointers, member pointers, references, arrays and qualified function types, and the standard's laws hold "
-              "(exactly one primary category, reference collapsing, remove_cvref = remove_cv after remove_reference); the "
-              "integer numeric_limits members equal 2^digits-1, -2^digits, and digits*3/10 = floor(digits*log10 2) for every "
-              "width below 103 bits; ratio_less/less_equal/greater/greater_equal equal the exact rational comparison whenever "
-              "the cross products fit intmax_t.  The rest of the ratio model (normalisation to lowest terms, the arithmetic "
-              "aliases beyond their reduction to ratio<n,d>) and make_signed/make_unsigned/underlying_type are modelled and "
-              "compared on every run but have no full theorem yet (coverage.correspondence_only).  The models are tied to the current "
-              "source on every run by a generated compile-time matrix (etl = model, std = spec, etl = spec) over a Lean-"
-              "enumerated zoo of 1.5e3 (quick) / 1e4 (thorough) types, all arithmetic types and a ratio grid incl. near-"
-              "overflow values.  About 80 intrinsic-backed class traits and relational traits/concepts are compared with "
-              "libstdc++ over a class zoo only (no proof).")
+TECHNIQUE = ("Three parts are Lean 4 proofs about a hand model that is tied to the source by a compile-time matrix on every "
+             "run: (a) <ratio>, (b) numeric_limits of the integer types, (c) the structural traits/concepts over a C++ type "
+             "grammar (incl. make_signed/make_unsigned/underlying_type).  One part is NOT a proof: (d) about 80 intrinsic-"
+             "backed class traits, relational traits and concepts, common_type/common_reference/invoke_result, the floating-"
+             "point numeric_limits and the logical traits are a differential etl-vs-libstdc++ matrix only")
+LEVEL_TEXT = ("PROVED in Lean 4 for all inputs (coverage.theorems): (c) each of 47 structural traits/concepts, as tetl computes "
+              "it (partial specialisations, SFINAE helpers, the not-const-qualifiable test of is_function, the portable "
+              "branches of is_scalar/is_object), equals the standard's definition for every well-formed type of a grammar with "
+              "cv, pointers, member pointers, references, arrays, qualified function types and eight enumerations (underlying "
+              "types of 1/2/4/8 bytes, signed/unsigned, scoped/unscoped), and the standard's laws hold (exactly one primary "
+              "category, reference collapsing, remove_cvref = remove_cv after remove_reference); make_signed/make_unsigned "
+              "name the type of [meta.trans.sign] (corresponding type; smallest rank of equal size for enumerations and "
+              "character types; cv kept) and are ill-formed for the same types, underlying_type is the fixed underlying type; "
+              "(b) the integer numeric_limits members equal 2^digits-1, -2^digits, and digits*3/10 = floor(digits*log10 2) for "
+              "every width below 103 bits; (a) ratio, after three fix: commits, against Mathlib's rational numbers Q: "
+              "ratio<n,d> is n/d in lowest terms with a positive denominator for all admissible template arguments and ill-formed "
+              "for the others (zero denominator, INTMAX_MIN); ratio_add/subtract/multiply/divide are the canonical "
+              "specialisation of the exact sum/difference/product/quotient in Q exactly when numerator and denominator of "
+              "that number fit intmax_t - no intermediate of the gcd-first products, of detail::ratio_add_impl or of "
+              "detail::ratio_less_impl overflows - and ill-formed otherwise (or when the divisor is zero); ratio_equal/"
+              "not_equal/less/less_equal/greater/greater_equal are =, !=, <, <=, >, >= of Q for all operands (the "
+              "continued-fraction loop terminates within den+1 iterations).  TIED TO THE SOURCE on every run by a generated "
+              "compile-time matrix (etl = model, std = spec, etl = spec) over a Lean-enumerated zoo of 1.5e3 (quick) / 1e4 "
+              "(thorough) types, all arithmetic types and a ratio grid incl. near-overflow values and targeted families; "
+              "instantiations that model and spec call ill-formed are compiled alone on a sample and must be rejected.  "
+              "NOT PROVED, differential matrix against libstdc++ only (coverage.unproved_observed): about 80 intrinsic-"
+              "backed class traits and relational traits/concepts over a class zoo, floating-point numeric_limits, "
+              "conjunction/disjunction/negation.")
 LEVEL_NOTE = ("Trusted: Lean kernel + propext/Classical.choice/Quot.sound; fidelity of the hand model outside the explored "
               "types; g++ 12 front end and intrinsics; libstdc++ as oracle.  Part (d) (coverage.unproved_observed) is "
-              "differential testing, not proof.  Floating-point numeric_limits members are compared with std only.")
-CORRESPONDENCE_ONLY = ["ratio<N,D>::num/den/type, ratio_add, ratio_subtract, ratio_multiply, ratio_divide, ratio_equal, "
-                       "ratio_not_equal (model = exact rational spec = std::ratio on the grid; proved only: the four ordering "
-                       "traits equal the exact comparison when the cross products fit, and ratio_add/ratio_multiply reduce "
-                       "to ratio<unreduced n, d> when the intermediates fit (…_partial: `ratio<N,D>` = lowest terms is not proved)",
-                       "make_signed, make_unsigned, underlying_type, add_cv, integer numeric_limits::digits10 of the "
-                       "literal specialisations beyond 8-bit bytes",
+              "differential testing, not proof.  Floating-point numeric_limits members are compared with std only.  The "
+              "integer numeric_limits min/max/lowest are modelled as closed forms of (bits, signedness); the header's "
+              "*_MAX macros and shift expressions are tied to them by the matrix over every arithmetic type only.")
+CORRESPONDENCE_ONLY = ["add_cv, integer numeric_limits::digits10 of the literal specialisations beyond 8-bit bytes",
                        "numeric_limits<floating-point>::* (compared with std only)",
-                       "numeric_limits<integer>: is_specialized, is_integer, is_exact, radix, is_bounded, traps and the "
-                       "zero-valued floating-point members",
+                       "numeric_limits<integer>: is_specialized, is_integer, is_exact, radix, is_bounded, traps, the "
+                       "zero-valued floating-point members, and min/max/lowest as the header spells them (macros, shifts)",
                        "conjunction, disjunction, negation, integral_constant (fixed row, etl vs std)"]
 UNPROVED_OBSERVED = [
     "is_trivial", "is_trivially_copyable", "is_standard_layout", "is_empty", "is_polymorphic", "is_abstract", "is_final",
@@ -93,19 +105,27 @@ UNPROVED_OBSERVED = [
     "regular, equality_comparable, swappable, convertible_to, derived_from, assignable_from, constructible_from, common_with, "
     "common_reference_with, invocable"]
 THEOREMS = {
-    "rn": [], "ra": ["Tetl.C15.Props.ratioLess_eq", "Tetl.C15.Props.ratioAdd_eq_mkRatio_partial",
-                     "Tetl.C15.Props.ratioMul_eq_mkRatio_partial", "Tetl.C15.Props.ratioAdd_overflow_counterexample"],
+    "rn": ["Tetl.C15.Props.mkRatio_rat", "Tetl.C15.Props.mkRatio_eq", "Tetl.C15.Props.mkRatio_illformed",
+           "Tetl.C15.Props.mkRatio_valid", "Tetl.C15.Props.valid_num_den", "Tetl.C15.Props.reduce_lowest_terms",
+           "Tetl.C15.Props.ratioType_canonical"],
+    "ra": ["Tetl.C15.Props.ratioAdd_rat", "Tetl.C15.Props.ratioSub_rat", "Tetl.C15.Props.ratioMul_rat",
+           "Tetl.C15.Props.ratioDiv_rat", "Tetl.C15.Props.ratioEqual_rat", "Tetl.C15.Props.ratioNotEqual_rat",
+           "Tetl.C15.Props.ratioLess_rat", "Tetl.C15.Props.ratioLessEqual_rat", "Tetl.C15.Props.ratioGreater_rat",
+           "Tetl.C15.Props.ratioGreaterEqual_rat", "Tetl.C15.Props.ratioAdd_eq", "Tetl.C15.Props.ratioAdd_illformed",
+           "Tetl.C15.Props.ratioSub_eq", "Tetl.C15.Props.ratioSub_illformed", "Tetl.C15.Props.ratioMul_eq",
+           "Tetl.C15.Props.ratioMul_illformed", "Tetl.C15.Props.ratioDiv_eq", "Tetl.C15.Props.ratioDiv_illformed"],
     "lim": ["Tetl.C15.Props.intLimits_eq", "Tetl.C15.Props.intLimits_char_eq", "Tetl.C15.Props.intLimits_bool_char8",
             "Tetl.C15.Props.digits10_eq_floor_log", "Tetl.C15.Props.digits10_eq_spec"],
     "ut": ["Tetl.C15.Props.exactly_one_primary_category", "Tetl.C15.Props.isFunction_eq", "Tetl.C15.Props.removeCv_eq",
            "Tetl.C15.Props.decay_eq", "Tetl.C15.Props.addPointer_eq", "Tetl.C15.Props.addLvalueReference_eq",
            "Tetl.C15.Props.addRvalueReference_eq", "Tetl.C15.Props.reference_collapsing", "Tetl.C15.Props.isObject_eq",
-           "Tetl.C15.Props.isCompound_eq", "Tetl.C15.Props.rank_eq", "Tetl.C15.Props.extent_eq"],
+           "Tetl.C15.Props.isCompound_eq", "Tetl.C15.Props.rank_eq", "Tetl.C15.Props.extent_eq",
+           "Tetl.C15.Props.makeSigned_eq", "Tetl.C15.Props.makeUnsigned_eq", "Tetl.C15.Props.underlyingType_eq"],
     "bt": ["Tetl.C15.Props.isSame_iff", "Tetl.C15.Props.sameAs_eq"],
 }
 
 # ------------------------------------------------------------------ the class zoo (names of harness/c15.cpp)
-CLASS_ZOO = ["Cls", "Uni", "EU", "EUF", "ES", "ESC", "Empty", "EmptyFinal", "Agg", "AggArr", "WithCtor", "ExplicitCtor",
+CLASS_ZOO = ["Cls", "Uni", "EU", "EUF", "ES", "ESC", "ESS", "EUS", "EL", "EULL", "Empty", "EmptyFinal", "Agg", "AggArr", "WithCtor", "ExplicitCtor",
              "NonTrivialDefault", "ThrowingDefault", "NonTrivialCopy", "NothrowCopyThrowingMove", "DeletedCopy", "MoveOnly",
              "DeletedDefault", "DeletedDtor", "ThrowingDtor", "NonTrivialDtor", "VirtualDtor", "Polymorphic", "Abstract",
              "AbstractProtDtor", "PrivateDtor", "Base", "Derived", "DerivedPriv", "DerivedVirt", "PolyFinal", "NonStdLayout",
@@ -148,7 +168,7 @@ def zoo(level):
 def random_enc(rnd, depth):
     """A random term of the encoding grammar (not necessarily well-formed: the driver filters)."""
     if depth == 0:
-        b = rnd.choice(["int", "void", "Cls", "char", "ES", "double", "Uni", "ullong", "nullptr", "EU", "bool"])
+        b = rnd.choice(["int", "void", "Cls", "char", "ES", "double", "Uni", "ullong", "nullptr", "EU", "bool", "EL", "EULL", "ESS", "EUS"])
         q = rnd.choice(["", "", "K1", "K2", "K3"])
         return q + "b" + b + ";"
     k = rnd.choice("PPMLRAUFF")
@@ -240,6 +260,60 @@ def generate(tier, seed):
         if rnd.random() < 0.2:
             c, d = b, a                # reciprocal
         add("ra n1=%d d1=%d n2=%d d2=%d" % (a, b, c, d), "ra/big")
+    # families aimed at the overflow-free formulations (ratio_add_impl, gcd-first multiply, Euclid comparison):
+    # the reduced result is representable although a naive product is not
+    M = 2 ** 63 - 1
+    import math
+    for _ in range(60 if not thorough else 900):
+        k = rnd.randrange(6)
+        if k == 5:        # lcm(d1, d2) is not representable, the sum is: only the factor p of gcd(d1, d2) cancels
+            a, b = rnd.choice([(2, 3), (3, 2), (3, 4), (5, 2), (2, 7), (3, 5)])
+            p_ = rnd.choice([5, 7, 11, 13, 25, 49, 121]) if (a * b) % 5 else rnd.choice([7, 11, 13, 49, 121])
+            if math.gcd(p_, a * b) != 1:
+                continue
+            e = 1
+            while p_ * 2 ** (e + 1) * max(a, b) <= M:
+                e += 1
+            g = p_ * 2 ** e                                   # g max(a, b) <= M < 2 g max(a, b) <= g a b
+            d1, d2 = g * a, g * b
+            n1 = rnd.choice([1, 3, 9, 17, 19, 23, 27, 29, 31, 37, 41, 43, 47, 53])
+            n1 *= rnd.choice([1, -1])
+            if math.gcd(n1, d1) != 1:
+                continue
+            n2 = next((t for t in range(1, 4 * p_ * 30, 2) if (n1 * b + t * a) % p_ == 0 and math.gcd(t, d2) == 1), None)
+            if n2 is None:
+                continue
+            line = (n1, d1, n2, d2)
+        elif k == 0:      # common denominator g with a cancelling numerator: n1/g + n2/g, g2 = gcd(n1+n2, g) > 1
+            g = rnd.choice([2 ** 62, 2 ** 61 * 3, 10 ** 18, 6 * 10 ** 17, 2 ** 40 * 3 ** 10])
+            n1 = rnd.randrange(1, M) | 1
+            n2 = (g * rnd.randrange(1, 4) - n1 % g) % g + g * rnd.randrange(0, 2)
+            line = (n1 * rnd.choice([1, -1]), g, n2, g)
+        elif k == 1:      # Bezout-type cancellation: n1/a - n2/b = 1/(a b) with n1 b ~ 2^93
+            a, b = rnd.choice([(2 ** 31 - 1, 2 ** 31), (2 ** 31 + 11, 2 ** 31 - 1), (3037000499, 3037000500), (999999937, 10 ** 9)])
+            x = pow(b, -1, a)                         # x b = 1 (mod a)
+            t = rnd.randrange(2 ** 29, 2 ** 30)
+            n1 = x + t * a
+            n2 = (n1 * b - 1) // a
+            line = (n1, a, -n2, b)
+        elif k == 2:      # large integer parts of opposite sign, small fractional sum with carry
+            d1, d2 = rnd.choice([(6, 4), (10, 15), (2 ** 20, 2 ** 21), (3 ** 20, 3 ** 19 * 2), (12, 18)])
+            top = M // max(d1, d2)
+            i = rnd.randrange(min(2 ** 40, top // 2), top)
+            line = (i * d1 + rnd.randrange(1, d1), d1, -(i - rnd.randrange(0, 3)) * d2 + rnd.randrange(1, d2), d2)
+        elif k == 3:      # products that cancel completely: (p/q) * (q'/p') with shared large factors
+            p_, q_ = rnd.choice(BIG), rnd.choice(BIG)
+            u, v = rnd.choice([1, 2, 3, 5, 7, 2 ** 20]), rnd.choice([1, 3, 4, 9, 11, 3 ** 12])
+            line = (p_, q_, q_ // math.gcd(q_, v) * u if rnd.random() < 0.5 else q_, p_ // math.gcd(p_, u) * v if rnd.random() < 0.5 else p_)
+        else:             # neighbours: continued-fraction comparison needs many steps (consecutive Fibonacci-like pairs)
+            f0, f1 = 1, 1
+            for _i in range(rnd.randrange(60, 90)):
+                f0, f1 = f1, f0 + f1
+            line = (f1, f0, f1 + f0, f1) if rnd.random() < 0.5 else (-f1, f0, -(f1 + f0), f1)
+        if all(abs(v) <= M for v in line) and line[1] != 0 and line[3] != 0:
+            add("ra n1=%d d1=%d n2=%d d2=%d" % line, "ra/targeted")
+    for (n, d) in ((1, 0), (0, 0), (-(2 ** 63), 1), (1, -(2 ** 63)), (5, 0)):
+        add("rn n=%d d=%d" % (n, d), "rn/ill-formed")
     add("misc", "misc")
     return cases, False, dist
 
@@ -306,8 +380,8 @@ def ra_intermediates(line, op):
     return (x, y), _fits(x) and _fits(y)
 
 
-def classify_item(line, key, impl, spec):
-    """Known-finding id for a failing item of a case line, or None."""
+def classify_item(line, key, impl, spec, row=None):
+    """Known-finding id for a failing item of a case line, or None.  `row` = all impl items of the line."""
     if line.startswith("db "):
         # common_reference<T, U> is only defined for identical T and U; the concepts built on it inherit the gap
         if key in ("common_reference_with", "common_with") and impl == "0":
@@ -323,21 +397,13 @@ def classify_item(line, key, impl, spec):
         if key == "swappable" and impl == "1" and spec == "0":
             return "F-C15-swappable-is-not-ranges-swap"
         if key.startswith("is_trivially_constructible<") or key in ("is_trivially_copy_constructible", "is_trivially_move_constructible"):
-            return "F-C15-is-trivially-constructible-ignores-args"
+            # the defect: Args are ignored, the answer is is_trivially_default_constructible<T>; any other wrong answer is new
+            dflt = (row or {}).get("is_trivially_default_constructible")
+            if dflt is None or impl == dflt:
+                return "F-C15-is-trivially-constructible-ignores-args"
+            return None
         return None
-    if not line.startswith("ra "):
-        return None
-    if key in ("divide", "divide_canon") and spec == "ill-formed" and _reduce(*_ra_args(line)[2:])[0] == 0:
-        return "F-C15-ratio-divide-by-zero-accepted"
-    op = key[:-6] if key.endswith("_canon") else key
-    if op not in ("add", "subtract", "multiply", "divide"):
-        op = "compare"
-    (n, d), fits = ra_intermediates(line, op)
-    if not fits:
-        return "F-C15-ratio-intermediate-overflow" if impl == "ill-formed" and spec != "ill-formed" else None
-    if key.endswith("_canon") and impl == "0" and spec == "1" and (n, d) != _reduce(n, d):
-        return "F-C15-ratio-alias-not-reduced"
-    return None
+    return None            # part (a), (b), (c): no known finding (the three ratio findings are fixed)
 
 
 def classify(case, k, row):            # interface of the standard flow (unused by run())
@@ -428,8 +494,8 @@ def make_items(ctx, cases):
             t = cpp_base(kv["t"])
             it.call = "lrow<%s>(%d);" % (t if q == 0 else "C%d<%s>" % (q, t), idx)
         elif op == "rn":
-            if it.model.strip() == "ill-formed" or it.spec.strip() == "ill-formed":
-                it.skip = True            # outside the domain of std::ratio (or of the model): not instantiated
+            if it.model.strip() == "ill-formed" and it.spec.strip() == "ill-formed":
+                it.skip = True            # ill-formed for both: not instantiated in the matrix (probed alone, see run())
             else:
                 it.call = "rnrow<%sL, %sL>(%d);" % (kv["n"], kv["d"], idx)
         elif op == "ra":
@@ -497,30 +563,32 @@ def compile_part(ctx, part_no, rows, items, repo):
 
 
 def probe_illformed(ctx, line, op, repo):
-    """Observe that tetl's instantiation really is ill-formed where the model says so (own translation unit).
-    Returns True when the probe does not compile."""
-    n1, d1, n2, d2 = _ra_args(line)
-    name = {"add": "ratio_add", "subtract": "ratio_subtract", "multiply": "ratio_multiply", "divide": "ratio_divide"}.get(op)
-    if name:
-        use = "static_assert(etl::%s<X, Y>::den != 0);" % name
+    """Observe in a translation unit of its own that tetl's instantiation is ill-formed.
+    `op` is add/subtract/multiply/divide, "compare" or "rn".  Returns True when the probe does not compile."""
+    if op == "rn":
+        kv = dict(t.split("=", 1) for t in line.split(" ")[1:])
+        decl = "[[maybe_unused]] constexpr auto probe = etl::ratio<%s, %s>::den;" % (_lit(int(kv["n"])), _lit(int(kv["d"])))
+        head = ""
     else:
-        use = "static_assert(etl::ratio_less<X, Y>::value || !etl::ratio_less<X, Y>::value);"
-    src = ("#include <etl/ratio.hpp>\nusing X = etl::ratio<%dL, %dL>;\nusing Y = etl::ratio<%dL, %dL>;\n%s\nint main() {}\n"
-           % (n1, d1, n2, d2, use))
+        n1, d1, n2, d2 = _ra_args(line)
+        name = {"add": "ratio_add", "subtract": "ratio_subtract", "multiply": "ratio_multiply", "divide": "ratio_divide"}.get(op)
+        head = "using X = etl::ratio<%s, %s>;\nusing Y = etl::ratio<%s, %s>;\n" % (_lit(n1), _lit(d1), _lit(n2), _lit(d2))
+        if name:
+            decl = "[[maybe_unused]] constexpr auto probe = etl::%s<X, Y>::den;" % name
+        else:
+            decl = "[[maybe_unused]] constexpr bool probe = etl::ratio_less<X, Y>::value;"
+    src = "#include <etl/ratio.hpp>\n%s%s\nint main() {}\n" % (head, decl)
     path = os.path.join(lib.BUILD, "c15_%s_probe_%d.cpp" % (ctx.run_id, abs(hash((line, op))) % 10 ** 8))
     open(path, "w").write(src)
     rc, _, _ = lib.sh([lib.CXX] + CXXSTD + ["-fsyntax-only", "-I", os.path.join(repo, "include"), path], timeout=300)
     rejected = rc != 0
-    if not rejected and name is None:
-        # g++ 12 accepts the overflowing product inside `bool_constant<(a * b < c * d)>` and wraps (so the trait
-        # silently yields a wrong value); clang diagnoses the non-constant template argument
-        try:
-            rc2, _, _ = lib.sh(["clang++-16", "-std=c++20", "-fsyntax-only", "-I", os.path.join(repo, "include"), path], timeout=300)
-            rejected = rc2 != 0
-        except OSError:
-            rejected = True            # no second compiler: nothing observed, keep the model's answer
     os.unlink(path)
     return rejected
+
+
+def _lit(x):
+    """C++ spelling of an intmax_t value (INTMAX_MIN has no literal)."""
+    return "(-9223372036854775807L - 1)" if x == -(2 ** 63) else "%dL" % x
 
 
 def evaluate_items(items):
@@ -616,16 +684,33 @@ def run(ctx, replay=None):
 
     fails = evaluate_items(items)
 
-    # probes: where the model says "ill-formed" but the spec does not, observe the compile error itself
-    probed = {}
-    budget = 8 if ctx.tier == "quick" else 24
-    for (it, key, kind, i, s, m, p) in fails:
+    # negative probes: where model and spec agree on "ill-formed" the harness does not instantiate the alias (it could not
+    # compile); observe on a sample, each in a translation unit of its own, that tetl really rejects the instantiation
+    cand = []
+    for it in items:
         ln = it.case.lines[0]
-        if kind == "R3" and ln.startswith("ra ") and i == "ill-formed" and budget > 0 and not key.endswith("_canon"):
-            op = key if key in ("add", "subtract", "multiply", "divide") else "compare"
-            if (ln, op) not in probed:
-                probed[(ln, op)] = probe_illformed(ctx, ln, op, repo)
-                budget -= 1
+        if ln.startswith("rn ") and it.model.strip() == "ill-formed" and it.spec.strip() == "ill-formed":
+            cand.append((ln, "rn"))
+        elif ln.startswith("ra ") and not it.skip and it.call is not None:
+            M_, P_ = parse_items(it.model), parse_items(it.spec)
+            for op in ("add", "subtract", "multiply", "divide"):
+                if M_.get(op) == "ill-formed" and P_.get(op) == "ill-formed":
+                    cand.append((ln, op))
+    cand = list(dict.fromkeys(cand))
+    budget = 32 if ctx.tier == "quick" else 160
+    head_n = min(len(cand), 10)                 # the witnesses of the fixed findings and the ill-formed `rn` rows come first
+    rn_c = [c for c in cand if c[1] == "rn"]
+    rest = [c for c in cand if c[1] != "rn"]
+    pick = rn_c[:12] + rest[:head_n]
+    more = [c for c in rest[head_n:]]
+    random.Random(ctx.seed).shuffle(more)
+    pick = (pick + more)[:budget] if not replay else cand[:budget]
+    probed = {}
+    with cf.ThreadPoolExecutor(max_workers=lib.NPROC) as ex:
+        futs = {k: ex.submit(probe_illformed, ctx, k[0], k[1], repo) for k in pick}
+        for k, f in futs.items():
+            probed[k] = f.result()
+    accepted = [k for k, v in probed.items() if not v]
 
     if replay:
         for it in items:
@@ -637,7 +722,10 @@ def run(ctx, replay=None):
                     log("   %-34s impl=%s model=%s spec=%s std=%s%s" % (k, I[k], M.get(k), P.get(k), S.get(k), mark))
         for idx, err, _ in broken_rows:
             log("%s\n   ill-formed: %s" % (items[idx].case.lines[0], err))
-        badk = sorted({f[2] for f in fails if f[2] in ("R1", "R3")} | ({"ILL-FORMED"} if broken_rows else set()))
+        for (ln, op) in accepted:
+            log("%s\n   %s: model and spec say ill-formed, but tetl's instantiation compiles" % (ln, op))
+        badk = sorted({f[2] for f in fails if f[2] in ("R1", "R3")} | ({"ILL-FORMED"} if broken_rows else set())
+                      | ({"ACCEPTS-ILL-FORMED"} if accepted else set()))
         log("replay: %s" % ("FAILS " + ",".join(badk) if badk else "passes"))
         return 1 if badk else 0
 
@@ -670,16 +758,11 @@ def run(ctx, replay=None):
             log("MACHINERY-ERROR spec!=std (defect of the Lean spec, not of tetl): %s: %s spec=%s std=%s" % (ln, key, p, s))
             machinery = True
             continue
-        fid = classify_item(ln, key, i, p if p is not None else s) if kind == "R3" else None
+        fid = classify_item(ln, key, i, p if p is not None else s, parse_items(it.impl)) if kind == "R3" else None
         if fid and known.get(fid, {}).get("status") == "known":
-            op = key if key in ("add", "subtract", "multiply", "divide") else "compare"
-            if fid == "F-C15-ratio-intermediate-overflow" and probed.get((ln, op)) is False:
-                fid = None                    # the model says ill-formed, the probe compiled: correspondence broken
-                kind = "R1"
-            else:
-                ctx.known(fid, known[fid].get("what", ""))
-                finding_seen.add(fid)
-                continue
+            ctx.known(fid, known[fid].get("what", ""))
+            finding_seen.add(fid)
+            continue
         gk = (kind, key)
         reported[gk] = reported.get(gk, 0) + 1
         if reported[gk] > 1:
@@ -692,6 +775,17 @@ def run(ctx, replay=None):
                        "theorems": THEOREMS.get(ln.split(" ")[0], []), "lean_error": proof_broken,
                        "source": lib.source_hashes(SOURCES), "failing_input_found": kind == "R3"}, found=(kind == "R3"))
         log("  %s: %s  impl=%s model=%s spec=%s std=%s" % (ln, key, i, m, p, s))
+    for n_acc, (ln, op) in enumerate(accepted):
+        if n_acc >= 3:
+            log("  (%d further ill-formed instantiations accepted)" % (len(accepted) - 3))
+            break
+        what = "ratio<n, d>" if op == "rn" else "ratio_" + op
+        ctx.violation({"kind": "impl_violates_property", "cases": [ln], "failing_line": 0, "item": op,
+                       "impl": "%s: well-formed (the instantiation compiles)" % what, "model": "%s=ill-formed" % op,
+                       "spec": "%s=ill-formed" % op, "std": "ill-formed",
+                       "theorems": THEOREMS.get(ln.split(" ")[0], []), "lean_error": proof_broken,
+                       "source": lib.source_hashes(SOURCES), "failing_input_found": True})
+        log("  %s: %s is ill-formed in model, spec and std, but tetl's instantiation compiles" % (ln, what))
     if proof_broken and not ctx.violations:
         ctx.violation({"kind": "proof_broken", "cases": [], "lean_error": proof_broken, "theorems": PROOF_MODULES,
                        "source": lib.source_hashes(SOURCES), "failing_input_found": False,
@@ -746,6 +840,7 @@ def run(ctx, replay=None):
         "traces_validated_against_impl": agree,
         "input_distribution": dist,
         "illformedness_probes": {"%s [%s]" % k: ("ill-formed as modelled" if v else "COMPILES") for k, v in probed.items()},
+        "illformedness_probe_candidates": len(cand),
         "compile_wall_s": round(compile_s, 1),
         "known_findings_replayed": dict(ctx.known_hits),
         "source_hashes": lib.source_hashes(SOURCES),
